@@ -137,8 +137,9 @@ CLAIMED = {
              "drivers report success only with a non-null payload installed and the protected flag cleared; (R2) "
              "decrypting truncated/hostile protected frames is memory-safe for every access with a linear offset in "
              "src/crypto.cpp (payload vectors, PTK, scratch blocks, OpenSSL block/digest sizes); (R3) WPA2 keys are "
-             "looked up by source pair then destination pair. Two genuine memory-safety defects found here were repaired "
-             "with fix: commits.",
+             "looked up by source pair then destination pair; (R4) the step table of RSNHandshakeCapturer::do_insert: a "
+             "message is appended iff it is the next expected one and a retransmission of the last stored message leaves "
+             "the partial handshake untouched. Two genuine memory-safety defects found here were repaired with fix: commits.",
         note="NOT decided: cipher correctness, PTK derivation, handshake orderings (seeded changes of that kind are not "
              "detected). One CCMP per-block offset depends on division/modulo and is listed as undecided, not proven.",
     ),
